@@ -477,9 +477,10 @@ func report(o *options, p *Prog, db *ContractDB, units []*Unit, known []KnownFin
 	}
 	var standins []interface{}
 	if o.only == "" && !o.baseline {
-		var sf []string
-		standins, sf = runBoundedStandins(o)
+		var sf, sv []string
+		standins, sf, sv = runBoundedStandins(o)
 		broken = append(broken, sf...)
+		violations = append(violations, sv...)
 		for _, s := range standins {
 			if m, ok := s.(map[string]interface{}); ok && m["ran"] == true {
 				fmt.Printf("bounded stand-in %v: %v (%v instances; bound: %v) - not counted as proved\n", m["name"], m["result"], m["instances"], m["bound"])
